@@ -169,11 +169,12 @@ fn import_extension_fields(node: &mut Node, doc: &mut RustDocument, base_fields:
             }
         }
 
+        // the own content of an extension is a sequence or a choice (both are flattened the same way)
         let has_sequence = base
             .children()
-            .any(|n| n.is_element() && n.tag_name().name() == "sequence");
+            .any(|n| n.is_element() && matches!(n.tag_name().name(), "sequence" | "choice"));
         for n in base.children().filter(Node::is_element) {
-            if n.tag_name().name() == "sequence" {
+            if matches!(n.tag_name().name(), "sequence" | "choice") {
                 import_sequence_node_fields(&mut base, doc, base_fields)?;
             }
 
